@@ -555,6 +555,10 @@ class Writer:
         ("rep", loop_node, body, fn)"""
         k = n.get("k")
         if not self.has_sink(n):
+            ex = early_exits(n)
+            if ex:
+                # `if c { return Ok(()) }`, `let .. else { continue }`: what is written after it is skipped for some inputs
+                return ("exit", n, fn, ex)
             return ("seq", [])
         if k in ("semi", "try", "ref", "cast"):
             return self.term(fn, n["e"], depth)
@@ -568,7 +572,8 @@ class Writer:
                 raise Unrec("text written inside a let-else", n.get("sp"))
             return self.term(fn, n["init"], depth) if "init" in n else ("seq", [])
         if k == "ret":
-            return self.term(fn, n["e"], depth) if "e" in n else ("seq", [])
+            inner = self.term(fn, n["e"], depth) if "e" in n else ("seq", [])
+            return inner if H.is_err_exit(n) else ("seq", [inner, ("exit", n, fn, [n])])
         if k == "if":
             if self.has_sink(n["cond"]):
                 raise Unrec("text written inside a condition", n.get("sp"))
@@ -622,6 +627,27 @@ class Writer:
                 if n["name"] in ("context", "with_context", "map_err"):
                     return self.term(fn, n["recv"], depth)
         raise Unrec("`%s` contains a text write in a shape the extractor does not understand" % H.render(n)[:80], n.get("sp"))
+
+
+def early_exits(n):
+    """Nodes inside `n` (closures and inner loops apart) through which control leaves the enclosing function or loop iteration
+    without an error: `return <non-error>`, `continue`, `break`."""
+    out = []
+    stack = [(n, False)]
+    while stack:
+        x, inner = stack.pop()
+        if not isinstance(x, dict) or x.get("k") == "closure":
+            continue
+        k = x.get("k")
+        if k == "ret" and not H.is_err_exit(x):
+            out.append(x)
+            continue
+        if k in ("break", "continue") and not inner:
+            out.append(x)
+        sub = inner or k in ("for", "loop")
+        for ch in H.children(x):
+            stack.append((ch, sub))
+    return out
 
 
 def option_match_as_if(m):
@@ -723,9 +749,13 @@ def rows_of(term):
     """Cut a (flattened) term into rows. Raises Unrec when a row straddles a structural boundary."""
     rows = []
     buf = []
+    pending = []       # early successful exits met so far: rows created from here on are skipped on some paths
 
     def inline(t):
         k = t[0]
+        if k == "exit":
+            pending.append(("after-exit", t[1], t[2], t[3]))
+            return []
         if k == "seq":
             out = []
             for x in t[1]:
@@ -751,8 +781,11 @@ def rows_of(term):
                 if p:
                     buf.append(("lit", p))
                 if i < len(parts) - 1:
-                    rows.append(Row(ctx, list(buf)))
+                    rows.append(Row(ctx + pending, list(buf)))
                     del buf[:]
+            return
+        if k == "exit":
+            pending.append(("after-exit", t[1], t[2], t[3]))
             return
         if k == "hole":
             buf.append(t)
@@ -772,12 +805,15 @@ def rows_of(term):
                 raise Unrec("unterminated row at the end of a conditional block", t[1].get("sp"))
             return
         if k == "rep":
+            mark = len(pending)
             go(t[2], ctx + [("rep", t[1], t[3])])
             if buf:
                 raise Unrec("unterminated row at the end of a loop body", t[1].get("sp"))
+            # `continue` / `break` leave this loop only; a `return` also skips what follows the loop
+            pending[mark:] = [p for p in pending[mark:] if any(x.get("k") == "ret" for x in p[3])]
             return
         if k == "rec":
-            rows.append(Row(ctx + [("rec", t[1], t[3])], []))
+            rows.append(Row(ctx + pending + [("rec", t[1], t[3])], []))
             return
         raise Unrec("unexpected term %s" % k)
 
@@ -785,6 +821,21 @@ def rows_of(term):
     if buf:
         rows.append(Row([("unterminated",)], list(buf)))
     return rows
+
+
+def exits_before(row, seen=None):
+    """[text] for the early successful exits that precede a writer row (ctx entries `after-exit`).  With `seen` (a set shared over
+    the rows in emission order) an exit is reported at the first row behind it only (the later rows are skipped by it as well)."""
+    out = []
+    for c in row.ctx:
+        if c[0] == "after-exit":
+            if seen is not None:
+                if id(c[1]) in seen:
+                    continue
+                seen.add(id(c[1]))
+            kinds = sorted(set("return" if x.get("k") == "ret" else x.get("k") for x in c[3]))
+            out.append("skipped by `%s` (%s)" % (H.render(c[1])[:100], "/".join(kinds)))
+    return out
 
 
 def split_columns(items, sep, indent_char="\t"):
@@ -871,14 +922,70 @@ def order_of_loop(fn, for_node):
             mp = (fs[-1][1], fs[-1][2])
     loc = H.local_of(it)
     srt = None
+    why = []
     if loc:
-        srt = sort_call_before(fn, loc[0], for_node)
-    return {"tainted": tainted, "map": mp, "sorted": srt, "local": loc[0] if loc else None, "chain": chain}
+        srt = sort_call_before(fn, loc[0], for_node, why)
+        # `let fields = { let mut v: Vec<_> = map.values().collect(); v.sort_by_key(..); v };` / `let fields = v;`: the iterated local is
+        # another name for a local that was sorted where it was built
+        cur, at = loc[0], for_node
+        for _ in range(3):
+            if srt is not None:
+                break
+            b = fn.binds.get(cur)
+            if b is None or b.origin[0] != "let" or b.path or "init" not in b.origin[1] or cur in fn.reassigned():
+                break
+            init = H.peel(b.origin[1]["init"], refs=False)
+            tail = H.peel(init["tail"], refs=False) if init.get("k") == "block" and "tail" in init else init
+            inner = H.local_of(tail) if tail.get("k") == "path" else None
+            if not inner:
+                break
+            del why[:]
+            srt = sort_call_before(fn, inner[0], tail, why)
+            cur, at = inner[0], tail
+    return {"tainted": tainted, "map": mp, "sorted": srt, "local": loc[0] if loc else None, "chain": chain, "sort_problem": "; ".join(why)}
 
 
-def sort_call_before(fn, local_id, before_node):
-    """The last `local.sort*(..)` statement that precedes `before_node` in evaluation order and is not followed
-    (before the loop) by a mutation of the local."""
+CONDITIONAL = ("if", "match", "for", "loop", "closure")
+
+
+def sort_call_before(fn, local_id, before_node, why=None):
+    """The last `local.sort*(..)` statement that precedes `before_node` in evaluation order, is not followed (before the loop) by a
+    mutation of the local, and is executed whenever `before_node` is: every `if`/`match`/loop/closure around the sort is also around
+    `before_node` (seed C03-10: `if !map.keys().is_sorted() { v.sort_by_key(..) }` skips the sort for some insertion orders).  An
+    explanation is appended to `why` when a sort exists but does not qualify."""
+    found = _sort_call_before(fn, local_id, before_node)
+    if found is not None:
+        outer = set(id(a) for a in fn.parents(before_node))
+        cur = found
+        for a in fn.parents(found):
+            if a.get("k") in CONDITIONAL and id(a) not in outer and not (a.get("k") == "if" and a.get("cond") is cur) \
+                    and not (a.get("k") == "match" and a.get("scrut") is cur) and not _more_than_one(a, cur, local_id):
+                if why is not None:
+                    why.append("`%s` runs only under `%s`: for the other inputs the data stays in map iteration order"
+                               % (H.render(found)[:60], H.render(a.get("cond") or a.get("scrut") or a.get("iter") or a)[:70] if a.get("k") in ("if", "match", "for")
+                                  else a.get("k")))
+                return None
+            cur = a
+    return found
+
+
+def _more_than_one(a, branch, local_id):
+    """`if v.len() > 1 { v.sort..() }` (also `>= 2`, `1 < v.len()`): a sequence of at most one element is sorted already."""
+    if a.get("k") != "if" or a.get("then") is not branch:
+        return False
+    c = H.peel(a["cond"], refs=False)
+    if c.get("k") != "bin" or c["op"] not in (">", ">=", "<", "<="):
+        return False
+    l, r, op = c["l"], c["r"], c["op"]
+    if op in ("<", "<="):
+        l, r, op = r, l, {"<": ">", "<=": ">="}[op]
+    l = H.peel(l, refs=False)
+    loc = H.local_of(l["recv"]) if l.get("k") == "mcall" and l["name"] == "len" and not l["args"] else None
+    v = H.const_value(r)
+    return bool(loc) and loc[0] == local_id and isinstance(v, int) and not isinstance(v, bool) and ((op == ">" and v <= 1) or (op == ">=" and v <= 2))
+
+
+def _sort_call_before(fn, local_id, before_node):
     found = None
     muts = ("push", "insert", "extend", "append", "swap", "reverse", "retain", "remove", "swap_remove", "truncate", "drain",
             "shuffle", "rotate_left", "rotate_right", "dedup", "push_front", "push_back", "entry", "shift_remove", "swap_remove_index")
@@ -1059,11 +1166,31 @@ class Reader:
             return bool(loc) and loc[0] == line_id
         return False
 
+    def _early_exit_as_if(self, blk):
+        """`{ if C { return X; } rest.. }` at the top of a level closure (the `return` leaves the closure, i.e. ends the handling of this
+        line with X) is `if C { X } else { rest.. }`.  -> the synthetic `if` node or None."""
+        s0 = H.peel(blk["stmts"][0], refs=False)
+        if s0.get("k") != "if" or "else" in s0 or H.peel(s0["cond"], refs=False).get("k") == "letexpr":
+            return None
+        th = H.peel(s0["then"], refs=False)
+        while th.get("k") == "block" and len(th.get("stmts", [])) + (1 if "tail" in th else 0) == 1:
+            th = H.peel((th["stmts"] + ([th["tail"]] if "tail" in th else []))[0], refs=False)
+        if th.get("k") != "ret" or "e" not in th:
+            return None
+        rest = {"k": "block", "stmts": blk["stmts"][1:], "ty": blk.get("ty"), "sp": blk.get("sp")}
+        if "tail" in blk:
+            rest["tail"] = blk["tail"]
+        return {"k": "if", "cond": s0["cond"], "then": th if H.is_err_exit(th) else th["e"], "else": rest, "sp": blk.get("sp"), "ty": blk.get("ty")}
+
     def _dispatch(self, lv):
         body = H.peel(lv.closure["body"])
         while True:
             if body.get("k") == "block":
                 if body["stmts"]:
+                    syn = self._early_exit_as_if(body)
+                    if syn is not None:
+                        body = syn
+                        continue
                     lv.problems.append("statements before the tag dispatch")
                     lv.default = ("other", body)
                     return
@@ -1073,19 +1200,23 @@ class Reader:
                 body = H.peel(body["tail"])
                 continue
             if body.get("k") == "if":
-                c = H.peel(body["cond"], refs=False)
+                # `first_field == "tag"`, also negated (`!=`, `!(..)`): then the two sides change places
+                c, neg = H.negate_peel(body["cond"])
                 tag = None
-                if c.get("k") == "bin" and c["op"] == "==":
+                if c.get("k") == "bin" and c["op"] in ("==", "!="):
                     for a, b in ((c["l"], c["r"]), (c["r"], c["l"])):
                         v = H.const_value(b)
                         if self._is_first_field(a, lv.line_id) and isinstance(v, str):
                             tag = v
+                    if c["op"] == "!=":
+                        neg = not neg
                 if tag is None or "else" not in body:
                     lv.default = ("other", body)
                     lv.problems.append("condition is not `line.first_field == \"tag\"` with an else branch")
                     return
-                lv.branches.append((tag, body["then"]))
-                body = H.peel(body["else"])
+                on, off = (body["else"], body["then"]) if neg else (body["then"], body["else"])
+                lv.branches.append((tag, on))
+                body = H.peel(off)
                 continue
             if body.get("k") == "match" and self._is_first_field(body["scrut"], lv.line_id):
                 for a in body["arms"]:
